@@ -58,6 +58,9 @@ def arg_forms(res, arg, values, *key):
         values = list(values)[::-1] + list(values)[:2]          # same set: other order, two repeats
         AF.note(res, arg + "(order)", "reversed+2 repeats")
     base = np.bool_ if arg.startswith("cut") else np.int64
+    if arg == "remove_vertices.indices" and len(values) == 0 and AF.pick([0, 1], "empty", *key) == 0:
+        AF.note(res, arg, "np.array([]) (float64 empty)")
+        return np.array([])                                     # numpy's default empty array (regression: /repo fix for C12)
     return AF.choose(res, arg, values, AF_FORMS[arg], *key, base=base)
 
 
